@@ -712,18 +712,20 @@ func c07R7(c *Ctx) {
 			if sig == nil || sig.Results().Len() != 2 {
 				return true
 			}
-			for _, r := range declReturns(lit.Body) {
-				if len(r.Results) != 2 {
-					continue
-				}
-				x := ast.Unparen(r.Results[0])
-				if tv := info.Types[x]; tv.Value != nil {
-					continue // a constant (false on a read error)
-				}
-				n++
-				neg := false
-				if u, ok := x.(*ast.UnaryExpr); ok && u.Op == token.NOT {
-					neg, x = true, ast.Unparen(u.X)
+			// the conditions under which the callback reports "done": for `return E, nil` the expression E,
+			// for a constant `return true, nil` the tests on the way to it
+			type lit1 struct {
+				x   ast.Expr
+				neg bool
+			}
+			matches := func(l lit1) (bool, string) {
+				x, neg := ast.Unparen(l.x), l.neg
+				for {
+					if u, ok := x.(*ast.UnaryExpr); ok && u.Op == token.NOT {
+						neg, x = !neg, ast.Unparen(u.X)
+						continue
+					}
+					break
 				}
 				x = ast.Unparen(derefExpr(fn, x))
 				call, isCall := x.(*ast.CallExpr)
@@ -739,10 +741,51 @@ func c07R7(c *Ctx) {
 						}
 					}
 				}
-				ok := isCall && usesParam && neg == w.neg && name == w.call
-				c.Check(ok, "C07.R7", w.fn+": the poll condition has the right quantifier", p.Pos(r), fn.Key(),
-					map[bool]string{false: "", true: "!"}[w.neg]+"<metadata set>."+w.call+"(<addresses>...)", fmt.Sprintf("negated=%v test=%s over-the-parameter=%v", neg, name, usesParam))
+				return isCall && usesParam && neg == w.neg && name == w.call, fmt.Sprintf("negated=%v test=%s over-the-parameter=%v", neg, name, usesParam)
 			}
+			var walk func(list []ast.Stmt, conds []lit1)
+			walk = func(list []ast.Stmt, conds []lit1) {
+				for _, st := range list {
+					switch t := st.(type) {
+					case *ast.BlockStmt:
+						walk(t.List, conds)
+					case *ast.IfStmt:
+						walk(t.Body.List, append(append([]lit1{}, conds...), lit1{t.Cond, false}))
+						if t.Else != nil {
+							walk([]ast.Stmt{t.Else}, append(append([]lit1{}, conds...), lit1{t.Cond, true}))
+						}
+						if alwaysReturns(t.Body.List) {
+							conds = append(append([]lit1{}, conds...), lit1{t.Cond, true})
+						}
+					case *ast.ReturnStmt:
+						if len(t.Results) != 2 {
+							continue
+						}
+						x := ast.Unparen(t.Results[0])
+						var cands []lit1
+						if tv := info.Types[x]; tv.Value != nil {
+							if tv.Value.String() != "true" {
+								continue // a constant false (read error, not yet)
+							}
+							cands = conds
+						} else {
+							cands = []lit1{{x, false}}
+						}
+						n++
+						ok, detail := false, "no test of the metadata set on the way to this result"
+						for _, l := range cands {
+							if m, d := matches(l); m {
+								ok = true
+							} else if !ok {
+								detail = d
+							}
+						}
+						c.Check(ok, "C07.R7", w.fn+": the poll condition has the right quantifier", p.Pos(t), fn.Key(),
+							map[bool]string{false: "", true: "!"}[w.neg]+"<metadata set>."+w.call+"(<addresses>...)", detail)
+					}
+				}
+			}
+			walk(lit.Body.List, nil)
 			return false
 		})
 	}
